@@ -124,6 +124,7 @@ def execute(case: dict) -> dict:
     beta = rng.uniform(-7.0, 7.0, size=shape_b)
     struct = StokesPyTree.class_for(kind).structure_for((m,), dtype)
     rots = {}
+    use_numpy = int(case['id'], 16) % 3 == 0
     ops, want = [], None
     angles_of = {}
     for code in chain:
@@ -138,7 +139,9 @@ def execute(case: dict) -> dict:
             ang = _real_angles(ANGLE_FORMS[i], alpha, beta)
             angles_of[i] = ang
             if i not in rots:
-                rots[i] = QURotationOperator(jnp.asarray(ang, dtype=dtype), struct)
+                # the angles may be given as a NumPy array (mutable) or as a JAX array
+                arr = np.asarray(ang, dtype=np.dtype(dtype)) if use_numpy else jnp.asarray(ang, dtype=dtype)
+                rots[i] = QURotationOperator(arr, struct)
             op = QURotationTransposeOperator(rots[i]) if code.endswith('T') else rots[i]
             M = _mueller(kind, code, ang, m)
         ops.append(op)
@@ -153,6 +156,9 @@ def execute(case: dict) -> dict:
         lifted['after_ok'], lifted['after_err'] = redcheck._close(after, want, tol)
         lifted['structs_ok'] = bool(red.in_structure() == comp.in_structure()
                                     and red.out_structure() == comp.out_structure())
+        # reducing must not rewrite the operands of the unreduced chain
+        lifted['unchanged_ok'], _ = redcheck._close(terms.dense_of(comp), want, tol)
+        lifted['numpy_angles'] = use_numpy
         # the surviving rotation's angle array must be the spec's linear form on the real generators
         spec_chain = case['result']['ch'] if case['result']['k'] == 'comp' else [case['result']]
         real_chain = list(red.operands) if isinstance(red, CompositionOperator) else [red]
@@ -230,7 +236,8 @@ def judge(cases, traces, verdicts, verd, mode):
         else:
             for key, clause in (('before_ok', 'mueller_matrix(real angle arrays)'),
                                 ('after_ok', 'reduced_matrix(real angle arrays)'),
-                                ('structs_ok', 'structures'), ('angles_ok', 'angle_form')):
+                                ('structs_ok', 'structures'), ('angles_ok', 'angle_form'),
+                                ('unchanged_ok', 'reduce_mutated_its_operands')):
                 if not lf.get(key, True):
                     verd.report(f'{key}:{label}', clause, case, lf)
                     ok = False
